@@ -186,6 +186,8 @@ def declared(m):
         lmis += list(f.list_of_class_psd)
     for f, c in m.fconstraints:
         constraints.append(c)
+    for f, psd in m.flmis:
+        lmis.append(psd)
     for part in BlockPartition.list_of_partitions:
         constraints += list(part.list_of_constraints)
     return sdp.expected_rows(pep, m.metrics, constraints, lmis), lmis
@@ -286,6 +288,8 @@ def cases(tier):
     add("quad", fclass='quad')
     add("composite-inexact", second='convex', steps=['inexact', 'prox'], unused=True)
     add("qg-late-leaf", fclass='qg', stationary=False)
+    add("function-lmi", function_lmi=True)
+    add("function-lmi-and-constraint", function_lmi=True, function_lmi_with_constraint=True, lmis=['one'])
     add("partition", partition=2)
     if tier == 'thorough':
         add("gd2-cons-lmi", steps=['grad', 'grad'], cons=['le', 'eq'], lmis=['three'])
